@@ -76,10 +76,8 @@ Value& INTExpression::value(Context & ctx) const
       break;
     case Type::NUMERIC:
     {
-      Numeric d = *val.numeric();
-      if (d < Numeric(INT64_MIN) || d > Numeric(INT64_MAX))
-        throw RuntimeError(EXC_RT_OUT_OF_RANGE);
-      v = Value(Integer(d));
+      /* fails with out-of-range unless the value fits (2^63 does not) */
+      v = Value(Value::toInteger(*val.numeric()));
       break;
     }
     case Type::INTEGER:
@@ -87,10 +85,7 @@ Value& INTExpression::value(Context & ctx) const
       break;
     case Type::IMAGINARY:
     {
-      Numeric d = val.imaginary()->a;
-      if (d < Numeric(INT64_MIN) || d > Numeric(INT64_MAX))
-        throw RuntimeError(EXC_RT_OUT_OF_RANGE);
-      v = Value(Integer(d));
+      v = Value(Value::toInteger(val.imaginary()->a));
       break;
     }
     case Type::BOOLEAN:
